@@ -13,15 +13,30 @@ TRUSTED = ['PLY calls each reduction action once, post-order (M2: per-operation 
 def extra(report, env):
     from pyvc import e2e
     p = e2e.new_parser()
-    srcs = ['#N/A', '#DIV/0!', '#VALUE!', '#REF!', '#NAME?', '#NUM!', '#NULL!', '1/0', 'NA()', 'SQRT(-1)', 'SUM(1/0)', 'SUM({1,2},1/0)', 'ERR()', 'RAISE()']
+    srcs = ['#N/A', '#DIV/0!', '#VALUE!', '#REF!', '#NAME?', '#NUM!', '#NULL!', '1/0', 'NA()', 'SQRT(-1)', 'SUM(1/0)', 'SUM({1,2},1/0)', 'ERR()', 'RAISE()',
+            # calls that fail with an exception of some other class: a custom function, and built-ins given arguments they cannot handle
+            'BOOMK()', 'BOOMA()', 'BOOMI()', 'BOOMX()', 'IMREAL(1)', 'COUNTIF({1,2},"")']
     from hotxlfp.formulas import error
 
     def raiser():
         raise error.NUM
+
+    class HostFailure(Exception):
+        pass
+
+    def boom(exc):
+        def f(*a):
+            raise exc
+        return f
     p.set_function('ERR', lambda: error.REF)
     p.set_function('RAISE', raiser)
+    p.set_function('BOOMK', boom(KeyError('k')))
+    p.set_function('BOOMA', boom(AttributeError('no such attribute')))
+    p.set_function('BOOMI', boom(IndexError(3)))
+    p.set_function('BOOMX', boom(HostFailure()))
     expect = {'#N/A': '#N/A', '#DIV/0!': '#DIV/0!', '#VALUE!': '#VALUE!', '#REF!': '#REF!', '#NAME?': '#NAME?', '#NUM!': '#NUM!', '#NULL!': '#NULL!',
-              '1/0': '#DIV/0!', 'NA()': '#N/A', 'SQRT(-1)': None, 'SUM(1/0)': '#DIV/0!', 'SUM({1,2},1/0)': '#DIV/0!', 'ERR()': '#REF!', 'RAISE()': '#NUM!'}
+              '1/0': '#DIV/0!', 'NA()': '#N/A', 'SQRT(-1)': None, 'SUM(1/0)': '#DIV/0!', 'SUM({1,2},1/0)': '#DIV/0!', 'ERR()': '#REF!', 'RAISE()': '#NUM!',
+              'BOOMK()': None, 'BOOMA()': None, 'BOOMI()': None, 'BOOMX()': None, 'IMREAL(1)': None, 'COUNTIF({1,2},"")': None}
     cases = 0
     fails = []
 
@@ -58,7 +73,7 @@ def extra(report, env):
     chk('IFERROR(5,7)', lambda r: r['result'] == 5, 'IFERROR(x,y) = x when x is not an error')
     chk('IFNA(NA(),7)', lambda r: r['result'] == 7, 'IFNA')
     chk('IFNA(1/0,7)', lambda r: r['error'] == '#DIV/0!', 'IFNA passes other errors')
-    bounded(report, 'C08.error-trees', '14 error sources (literals, operators, functions returning / raising) x 11 operators x 3 positions, traps', cases, fails)
+    bounded(report, 'C08.error-trees', '20 error sources (literals, operators, functions returning / raising error values, calls failing with 6 other exception classes) x 11 operators x 3 positions, traps', cases, fails)
 
 
 def replay(rp):
@@ -70,5 +85,12 @@ def replay(rp):
         raise error.NUM
     p.set_function('ERR', lambda: error.REF)
     p.set_function('RAISE', raiser)
+
+    def boom(exc):
+        def f(*a):
+            raise exc
+        return f
+    for nm, exc in (('BOOMK', KeyError('k')), ('BOOMA', AttributeError('no such attribute')), ('BOOMI', IndexError(3)), ('BOOMX', type('HostFailure', (Exception,), {})())):
+        p.set_function(nm, boom(exc))
     print('parse(%r) -> %r ; %s' % (rp['formula'], p.parse(rp['formula']), rp['detail']))
     return 1
